@@ -1,4 +1,4 @@
-/* LD_PRELOAD interposer for C13: observes free()/realloc() on addresses the harness registers.
+/* LD_PRELOAD interposer for C13 and C14: observes free()/realloc() on addresses the harness registers.
  *
  * Watch table entry states: LIVE (registered, not yet freed), FREED (freed once, address not yet
  * handed out again), GONE (the allocator handed the address out again: whatever happens to it now
@@ -104,13 +104,99 @@ static void handed_out(void *p) {
   unlock();
 }
 
+
+/* ---- optional guard zones behind every block that KERNEL code allocates (after verif_guard(1)).
+ * Kernel code = the caller's return address lies in no loaded object (MCJIT code) or in an object
+ * whose name contains "taco_kernel" (the cffi back end).  A guarded block is GUARD bytes longer than
+ * requested and the tail holds a canary: a kernel that writes past what it asked for smashes it
+ * (counted at free/realloc and by verif_guard_check), and Python reading past it reads canary bytes
+ * instead of whatever the allocator left there. ---- */
+#define GUARD 64
+#define CANARY 0xA5
+#define GBITS 16
+#define GSIZE (1u << GBITS)
+static uintptr_t g_addr[GSIZE];
+static size_t g_size[GSIZE];
+static unsigned char g_state[GSIZE]; /* 0 empty, 1 live, 2 tombstone */
+static volatile int guarding;
+static int g_live, g_tombs, overflows, guarded_total;
+static uintptr_t last_overflow;
+
+static int from_kernel(void *ret) {
+  Dl_info info;
+  if (!dladdr(ret, &info) || !info.dli_fname) return 1;
+  return strstr(info.dli_fname, "taco_kernel") != NULL;
+}
+
+static unsigned g_find(uintptr_t a) { /* slot of live entry a, or GSIZE */
+  unsigned h = (unsigned)((a >> 4) * 2654435761u) & (GSIZE - 1);
+  for (unsigned n = 0; n < GSIZE; n++, h = (h + 1) & (GSIZE - 1)) {
+    if (g_state[h] == 0) return GSIZE;
+    if (g_state[h] == 1 && g_addr[h] == a) return h;
+  }
+  return GSIZE;
+}
+
+static void g_rebuild(void) {
+  static uintptr_t a2[GSIZE];
+  static size_t s2[GSIZE];
+  unsigned k = 0;
+  for (unsigned i = 0; i < GSIZE; i++)
+    if (g_state[i] == 1) { a2[k] = g_addr[i]; s2[k] = g_size[i]; k++; }
+  memset(g_state, 0, sizeof g_state);
+  g_tombs = 0;
+  for (unsigned i = 0; i < k; i++) {
+    unsigned h = (unsigned)((a2[i] >> 4) * 2654435761u) & (GSIZE - 1);
+    while (g_state[h]) h = (h + 1) & (GSIZE - 1);
+    g_state[h] = 1; g_addr[h] = a2[i]; g_size[h] = s2[i];
+  }
+}
+
+static int g_insert(void *p, size_t n) { /* caller holds the lock */
+  if (g_live >= (int)(GSIZE / 4)) return 0;
+  if (g_live + g_tombs >= (int)(GSIZE / 2)) g_rebuild();
+  unsigned h = (unsigned)(((uintptr_t)p >> 4) * 2654435761u) & (GSIZE - 1);
+  while (g_state[h] == 1) h = (h + 1) & (GSIZE - 1);
+  if (g_state[h] == 2) g_tombs--;
+  g_state[h] = 1; g_addr[h] = (uintptr_t)p; g_size[h] = n;
+  g_live++; guarded_total++;
+  return 1;
+}
+
+static int canary_ok(uintptr_t a, size_t n) {
+  const unsigned char *c = (const unsigned char *)a + n;
+  for (int i = 0; i < GUARD; i++) if (c[i] != CANARY) return 0;
+  return 1;
+}
+
+/* p is being released or resized: if guarded, check and forget it; returns 1 if it was guarded */
+static int g_release(void *p) {
+  if (!g_live || !p) return 0;
+  lock();
+  unsigned h = g_find((uintptr_t)p);
+  if (h == GSIZE) { unlock(); return 0; }
+  if (!canary_ok(g_addr[h], g_size[h])) { overflows++; last_overflow = g_addr[h]; }
+  g_state[h] = 2; g_tombs++; g_live--;
+  unlock();
+  return 1;
+}
+
+static void g_adopt(void *p, size_t n) {
+  memset((char *)p + n, CANARY, GUARD);
+  lock();
+  g_insert(p, n);
+  unlock();
+}
+
 void *malloc(size_t n) {
   if (!real_malloc) {
     if (initing) { void *p = boot + boot_off; boot_off += (n + 15) & ~(size_t)15; return p; }
     init();
   }
-  void *p = real_malloc(n);
+  int g = guarding && from_kernel(__builtin_return_address(0));
+  void *p = real_malloc(g ? n + GUARD : n);
   handed_out(p);
+  if (g && p) g_adopt(p, n);
   return p;
 }
 
@@ -119,8 +205,10 @@ void *calloc(size_t a, size_t b) {
     if (initing) { void *p = boot + boot_off; boot_off += (a * b + 15) & ~(size_t)15; memset(p, 0, a * b); return p; }
     init();
   }
-  void *p = real_calloc(a, b);
+  int g = guarding && from_kernel(__builtin_return_address(0));
+  void *p = g ? real_calloc(a * b + GUARD, 1) : real_calloc(a, b);
   handed_out(p);
+  if (g && p) g_adopt(p, a * b);
   return p;
 }
 
@@ -129,6 +217,7 @@ void free(void *p) {
   if ((char *)p >= boot && (char *)p < boot + sizeof boot) return;
   if (!real_free) init();
   if (track_free(p)) return;
+  g_release(p);
   if (nwatch) {
     lock();
     watch_t *w = find((uintptr_t)p);
@@ -168,7 +257,9 @@ void *realloc(void *p, size_t n) {
     unlock();
     if (freed) return NULL;
   }
-  void *q = real_realloc(p, n);
+  int g = g_release(p) || (guarding && from_kernel(__builtin_return_address(0)));
+  void *q = real_realloc(p, g && n ? n + GUARD : n);
+  if (g && q && n) g_adopt(q, n);
   if (p && tracking && (n == 0 || (q && q != p))) { /* p was released */
     lock();
     unsigned h = t_slot((uintptr_t)p);
@@ -219,4 +310,16 @@ void verif_forget(int h) {
 void verif_track(int on) { tracking = on; }
 int verif_double_frees(void) { return double_frees; }
 uintptr_t verif_last_double_free(void) { return last_double_free; }
+void verif_guard(int on) { guarding = on; }
+int verif_guarded_total(void) { return guarded_total; }
+uintptr_t verif_last_overflow(void) { return last_overflow; }
+/* number of guarded blocks found overflowed so far (released ones + the live ones, scanned now) */
+int verif_guard_check(void) {
+  lock();
+  int n = overflows;
+  for (unsigned i = 0; i < GSIZE; i++)
+    if (g_state[i] == 1 && !canary_ok(g_addr[i], g_size[i])) { n++; last_overflow = g_addr[i]; }
+  unlock();
+  return n;
+}
 int verif_present(void) { return 1; }
